@@ -47,7 +47,8 @@ def floatify(T, v):
     """Canonical form in which REALs are Python floats (as ('float', repr) leaves)."""
     def fn(t, x):
         if t['k'] == 'REAL':
-            return ('float', repr(_as_float(x)))
+            f = _as_float(x)
+            return ('float', repr(f if f != 0 else 0.0))        # (a value that rounds to zero: the sign of zero is not content)
         return x
     T2 = fz._map_type(T, lambda t: None)
     for t in fz.type_nodes(T2):
